@@ -370,8 +370,19 @@ class Driver:
         col = self.pick_col(nonempty=True)
         if col is None or col.backend not in ("tree", "bare"):
             return None
-        if col.backend == "tree":
+        if col.backend == "tree" and self.rng.random() < 0.5:
             lock = os.path.join(self.w.fs_path(col.path), ".git", "index.lock")
+        elif col.backend == "tree":
+            # ... or the lock of the branch: the write gets as far as the commit before it is refused
+            try:
+                head = open(os.path.join(self.w.fs_path(col.path), ".git", "HEAD")).read().strip()
+            except OSError:
+                return None
+            if not head.startswith("ref: "):
+                return None
+            lock = os.path.join(self.w.fs_path(col.path), ".git", head[5:] + ".lock")
+            os.makedirs(os.path.dirname(lock), exist_ok=True)
+            self.count("locked_writes_branch_lock_on_tree")
         else:
             # bare store: the lock of the branch HEAD points at
             try:
@@ -400,6 +411,10 @@ class Driver:
                 os.unlink(lock)
             except FileNotFoundError:
                 pass
+        if self.rng.random() < 0.6:
+            # the client tries the very same upload again once the other process is gone: now it must be stored
+            self.w.full_audit([col.path])
+            self.w.put(col.path, name, body, op="put_retry_after_lock", uid=uid, token=tok)
         return [col.path]
 
     def op_put_nouid(self):
